@@ -476,6 +476,9 @@ func c20LimitsFor(tier string) c20Limits {
 	if tier == "thorough" {
 		return c20Limits{scenarios: 6000, maxTasks: 32, batch: 12, plainFrac: 0.25}
 	}
+	if tier == "smoke" { // determinism self-test only
+		return c20Limits{scenarios: 32, maxTasks: 6, batch: 8, plainFrac: 0.25}
+	}
 	return c20Limits{scenarios: 320, maxTasks: 6, batch: 10, plainFrac: 0.25}
 }
 
@@ -769,6 +772,7 @@ func RunC20(cfg Config) (*ShardResult, error) {
 				for pi, ph := range r.Phases {
 					res.Evaluations++
 					res.SimEvents += int64(ph.Parks)
+					res.Note(string(mustJSON(sc.Tasks)), fmt.Sprint(sc.Phases, pi), ph.TraceHash, fmt.Sprint(ph.Records), ph.Err)
 					res.Extra["context_switches_inside_calls"] += int64(ph.Switches)
 					res.Extra["tasks_run"] += int64(len(ph.Records))
 					if pi == 0 && ph.Switches > 0 && seen.add(Key64(ph.TraceHash)) {
